@@ -13,7 +13,7 @@ numbered in order of first binding (renaming locals or parameters does not chang
 `s = s | {x}`; `x, = e` is a one-element unpack; `ast.Index(value=e)` is e; ast.fix_missing_locations / ast.copy_location
 are the identity on the tree; a module-level tuple/list/set/frozenset of str on the right of `in` is evaluated from the
 live module and emitted sorted; statements following a `try ... except: return` go into its `else`; `a > b` is `b < a`;
-`next(iter(s))` is `s.pop()` without the mutation (both only have a meaning on a one-element set); list(e) / tuple(e).
+a comparison with the constant on the left is written with it on the right; `next(iter(s))` is `s.pop()` without the mutation (both only have a meaning on a one-element set); list(e) / tuple(e).
 A call of a function of the same module / a method of the same class (`helper(..)`, `self.helper(..)`, positional
 arguments only, no decorators, not recursive) whose body is itself translatable is INLINED: fresh numbers for its
 parameters and locals, `p_i = <argument>` emitted before, then `SCall tmp <body>` and the call expression becomes `tmp`.
@@ -180,6 +180,11 @@ class Fn:
             if len(e.ops) != 1:
                 bad('chained comparison', e)
             op, l, r = e.ops[0], e.left, e.comparators[0]
+            if isinstance(l, ast.Constant) and not isinstance(r, ast.Constant) and l.value is not None:
+                # constant on the right (the operands are pure; == and != are symmetric on the values of the language)
+                flip = {ast.Eq: ast.Eq, ast.NotEq: ast.NotEq, ast.Lt: ast.Gt, ast.LtE: ast.GtE, ast.Gt: ast.Lt, ast.GtE: ast.LtE}
+                if type(op) in flip:
+                    op, l, r = flip[type(op)](), r, l
             isnone = isinstance(r, ast.Constant) and r.value is None
             if isinstance(op, ast.Is) and isnone:
                 return '(EIsNone %s)' % self.expr(l)
